@@ -468,6 +468,57 @@ def c17_check(case):
     return {}
 
 
+# ----------------------------------------------------------------------------------------------------------- C19
+
+JSON_RECURSION_FROM = 40  # known finding "deep-trees:json-recursion": marshmallow's nested schemas recurse per level
+
+
+def c19_cases(tier, shard, nshards, seed):  # pylint:disable=unused-argument
+    cases = []
+    for depth in ([5, 15, 30, 60, 120] if tier == "quick" else [5, 15, 25, 30, 35, 60, 80, 120, 200, 300]):
+        for shape in ("right", "mixed", "ahb"):
+            cases.append({"depth": depth, "shape": shape})
+    return _shard(cases, shard, nshards)
+
+
+def c19_check(case):
+    """TreeSchema round trip of parse trees nested `depth` levels deep (outside Hypothesis: default recursion limit)"""
+    from ahbicht.json_serialization.tree_schema import TreeSchema
+
+    from vlib.core import known_signatures
+
+    api = evalhelp.api()
+    depth, shape = case["depth"], case["shape"]
+    ops = {"right": ["and"], "mixed": ["and", "xor", "then", "or"], "ahb": ["or", "and"]}[shape]
+    text = nested_text([f"[{k % 400 + 1}]" for k in range(depth + 1)], [ops[i % len(ops)] for i in range(depth)])
+    parsed = sut.call(api.resolve, f"Muss {text}") if shape == "ahb" else sut.call(api.parse_cond, text)
+    if not parsed.ok:
+        fail("deep-tree-parse", f"the expression nested {depth} levels deep was not parsed: {parsed!r}"[:500])
+    info = {"known": 0}
+    what = f"TreeSchema round trip of the {'resolved AHB' if shape == 'ahb' else 'parse'} tree of an expression nested {depth} levels deep"
+    for step in ("dump", "load"):
+        res = sut.call(TreeSchema().dump, parsed.value) if step == "dump" else sut.call(TreeSchema().load, dumped)  # noqa: F821
+        if res.ok:
+            if step == "dump":
+                dumped = res.value  # noqa: F841
+            elif ref.dump_tree_flat(res.value) != ref.dump_tree_flat(parsed.value):
+                fail("deep-tree-roundtrip", f"{what}: the loaded tree differs from the original")
+            continue
+        if res.is_a(RecursionError) and depth >= JSON_RECURSION_FROM and "deep-trees:json-recursion" in known_signatures("C19"):
+            info["known"] += 1
+            return info
+        clause = "json-recursion" if res.is_a(RecursionError) and depth >= JSON_RECURSION_FROM else "deep-tree-roundtrip"
+        fail(clause, f"{what}: {step} raised {res!r}"[:600])
+    return info
+
+
+def c19_classify(case, info):
+    labels = ["deep-trees", f"depth>={case['depth'] // 50 * 50}"]
+    if info.get("known"):
+        labels.append("excluded:known-finding-json-recursion")
+    return labels, True
+
+
 def stage(name, check, cases, sample=None):
     return Stage(name=name, kind="enum", check=check, classify=lambda case, info: ([name], True), enumerate=cases,
                  sample=sample or (lambda case: case))  # fmt: skip
